@@ -599,6 +599,11 @@ class Gen:
         self.add(mk_struct("DocBraces", "named", [mk_field("a", ("leaf", "i32"), docs=[" rendered as {{name}} with {0} and {1}"]),
                                                   mk_field("b", ("named", "Foo", []), docs=[" json {\"a\": 1} and a lone { and }"], inline=True)],
                            docs=[" type level {0} {{x}}"], flatten_ok=False, no_ref=True))
+        # `#[ts(optional)]` on Option fields that mention the type parameters of a generic definition (the Option check sits inside the impl)
+        self.add(mk_struct("OptGenField", "named", [mk_field("a", ("option", ("param", 0)), optional=False, skip_none=True),
+                                                    mk_field("b", ("option", ("vec", ("param", 1))), optional=True),
+                                                    mk_field("c", ("param", 0))],
+                           params=[("T", None), ("U", None)], flatten_ok=False, no_ref=True))
         # a zero-length array of a named type: its text `[]` mentions nothing, so nothing may be imported for it (C03)
         self.add(mk_struct("ZeroArr", "named", [mk_field("none", ("array", 0, ("named", "Foo", []))),
                                                 mk_field("maybe", ("option", ("array", 0, ("named", "Foo", [])))), mk_field("n", ("leaf", "u8"))],
